@@ -251,9 +251,9 @@ theorem SSim.pop {s₁ s₂ : St} (h : SSim P X s₁ s₂) {b c : Nat} {rest : L
 
 /-- `end_block` / `end_for` -/
 theorem closeGroup_rel (ok : P.Ok) {s₁ s₂ : St} (h : Sim P X s₁ s₂) (rowId : Str)
-    (hclose : ∀ b, s₁.stack.head? = some b → P.T b → rowId ≠ [] → rowId ∈ X.F) :
+    (hclose : ∀ b c rest, s₁.stack = b :: c :: rest → P.T b → rowId ≠ [] → rowId ∈ X.F) :
     rwp (closeGroup rowId) (closeGroup rowId) s₁ s₂ (fun _ t₁ _ t₂ =>
-      Sim P X t₁ t₂ ∧ t₁.stack = s₁.stack.tail ∧ (SB s₁ → SB t₁) ∧
+      Sim P X t₁ t₂ ∧ t₁.stack = s₁.stack.tail ∧ (SB s₁ → SB t₁) ∧ (∃ b c rest, s₁.stack = b :: c :: rest) ∧
       (∀ b, s₁.stack.head? = some b → ¬ P.T b → MR P t₁ ∧ (CL P s₁ → CL P t₁))) := by
   unfold closeGroup
   rw [rwp_get, h.2.stack]
@@ -271,12 +271,12 @@ theorem closeGroup_rel (ok : P.Ok) {s₁ s₂ : St} (h : Sim P X s₁ s₂) (row
     rw [hst, List.pairwise_cons] at hss
     refine rwp_mono (appendGroup_rel ok hs1 rowId hdb ?_) ?_
     · intro htb
-      refine ⟨?_, fun hne => hclose b (by rw [hst]; rfl) htb hne⟩
+      refine ⟨?_, fun hne => hclose b c rest hst htb hne⟩
       intro b' hb'
       simp only [List.head?_cons, Option.some.injEq] at hb'
       rw [← hb']; exact hss.1 c (by simp) htb
     · intro _ t₁ _ t₂ ⟨ht, e, _, _, hsb, hm⟩
-      refine ⟨ht, by rw [e]; rfl, ?_, ?_⟩
+      refine ⟨ht, by rw [e]; rfl, ?_, ⟨b, c, rest, rfl⟩, ?_⟩
       · intro hs
         apply hsb
         intro x hx
